@@ -1,7 +1,7 @@
 SPECIFICATION Spec
 CONSTANTS
   Vals <- V2
-  MaxQ = 3
+  MaxQ = 2
   RecordActs = FALSE
 INVARIANT TypeOK
 INVARIANT RxReadyIffWaiting
@@ -11,5 +11,5 @@ INVARIANT TxCoherent
 INVARIANT RxFifo
 INVARIANT TxFifo
 PROPERTY RestoreIsIdentity
-CONSTRAINT Bounded4
+CONSTRAINT Bounded3
 CHECK_DEADLOCK FALSE
